@@ -4,8 +4,12 @@ NAME=$1; PID=$2; shift 2
 cd /repo || exit 2
 git diff --quiet || { echo "/repo has uncommitted changes"; exit 2; }
 git apply /verif/seeded/$NAME/patch.diff || exit 2
+# the evidence file describes runs on the unchanged tree: keep it, the seeded run's evidence goes to out/
+cp /verif/evidence/$PID.json /verif/out/evidence_before_seed_$PID.json 2>/dev/null
 cd /verif && ./check $PID "$@" > /verif/out/seed_$NAME.log 2>&1
 RC=$?
 git -C /repo checkout -- .
+cp /verif/evidence/$PID.json /verif/out/seed_$NAME.evidence.json 2>/dev/null
+cp /verif/out/evidence_before_seed_$PID.json /verif/evidence/$PID.json 2>/dev/null
 tail -15 /verif/out/seed_$NAME.log
 echo "seed=$NAME property=$PID exit=$RC"
